@@ -111,7 +111,7 @@ def _expr(r, d):
     if x < 0.86:
         return '(-' + _expr(r, d - 1) + ')'
     f = r.choice(FUN); br = r.choice(['{}', '()'])
-    return f + br[0] + (r.choice(NAMES[:3]) if r.random() < 0.6 else _expr(r, d - 1)) + br[1]
+    return f + br[0] + r.choice(['', '', '', '-', '-', '+']) + (r.choice(NAMES[:3]) if r.random() < 0.6 else _expr(r, d - 1)) + br[1]
 
 
 def gen_programs(rng, n, tier):
@@ -218,11 +218,11 @@ def pr(e, rng):
     if k in ('name', 'lit'):
         return e[1]
     if k == 'par':
-        return '(' + pr(e[1], rng) + ')'
+        return '(' + pr_lead(e[1], rng) + ')'
     if k == 'neg':
         return '(-' + (('(' + pr(e[1], rng) + ')') if e[1][0] == 'bin' else pr(e[1], rng)) + ')'
     if k == 'fun':
-        return e[1] + rng.choice(['{%s}', '(%s)']) % pr(e[2], rng)
+        return e[1] + rng.choice(['{%s}', '(%s)']) % pr_lead(e[2], rng)
     op = e[1]
     ls = pr(e[2], rng); rs = pr(e[3], rng)
     if prec(e[2]) < PREC[op]:
@@ -230,6 +230,17 @@ def pr(e, rng):
     if prec(e[3]) <= PREC[op]:
         rs = '(' + rs + ')'
     return ls + op + rs
+
+
+def pr_lead(e, rng):
+    """e printed where a unary sign may stand bare: at the start of the string, after '=', '(' or '{'"""
+    bare = lambda x: '-' + (('(' + pr(x, rng) + ')') if x[0] == 'bin' else pr(x, rng))
+    if e[0] == 'neg' and rng.random() < 0.6:
+        return bare(e[1])
+    if e[0] == 'bin' and e[1] in '+-' and e[2][0] == 'neg' and rng.random() < 0.6:
+        rs = pr(e[3], rng)
+        return bare(e[2][1]) + e[1] + ('(' + rs + ')' if prec(e[3]) <= PREC[e[1]] else rs)
+    return pr(e, rng)
 
 
 def ev(e, env, n):
@@ -340,7 +351,7 @@ def gen_trees(rng, n, tier):
                 e = ['bin', rng.choice(['+', '-', '*', '<', '>']), rng.choice([['name', rng.choice(['a', 'b', 's', 'x', 'idx'])], ['name', 'a'] if floaty else e]), ['name', nm]] if rng.random() < 0.5 else \
                     ['bin', rng.choice(['+', '-', '*', '<', '>']), ['name', nm], ['name', rng.choice(['a', 'b', 's', 'x'])]]
                 lhs = rng.choice([None, None, 'c', nm])
-        s = pr(e, rng)
+        s = pr_lead(e, rng)
         if rng.random() < 0.15:
             s = ' ' + s.replace('+', ' + ').replace('(', '( ')
         c['tree'] = e; c['lhs'] = lhs; c['prog'] = (lhs + '=' if lhs else '') + s
